@@ -343,8 +343,8 @@ fn configs(tier: Tier) -> Vec<(C06, usize)> {
                 v.push((C06 { flavour, fin, reduced: true }, if flavour == Flavour::RemovedFromMulti { 4 } else { 4 }));
             }
             Tier::Thorough => {
-                v.push((C06 { flavour, fin, reduced: false }, if flavour == Flavour::RemovedFromMulti { 4 } else { 3 }));
-                v.push((C06 { flavour, fin, reduced: true }, if flavour == Flavour::RemovedFromMulti { 5 } else { 4 }));
+                v.push((C06 { flavour, fin, reduced: false }, 4));
+                v.push((C06 { flavour, fin, reduced: true }, if flavour == Flavour::RemovedFromMulti { 5 } else { 5 }));
             }
         }
     }
